@@ -120,6 +120,10 @@ def c03(tier, seed):
                               ("c03_cofactors", "cofactors"), ("c03_from_cofactors", "from_cofactors")):
                 if op == "swap_adjacent" and n < 2:
                     continue
+                if op in ("swap", "swap_adjacent") and n >= 11:
+                    # symbolic index pairs at n >= 11 never finished (3000 s timeout / OOM, measured twice);
+                    # the concrete-index harnesses below cover these sizes
+                    continue
                 covers = {"reached": "SATISFIED"}
                 if op in ("flip", "cofactors", "from_cofactors"):
                     covers["in-word index"] = "SATISFIED"
